@@ -685,6 +685,54 @@ theorem verify_sound_message_at (P : Prims) (L : List (Bytes × Bytes)) (S : Lis
   obtain ⟨m, hm, hok⟩ := verifyMessageAt_ok P k sigs chunks i h
   exact ⟨m, hm, verifyMessage_sound P L S k m.ops m.sig chunks hU hH hS (hv m hm) (fun _ p _ => hC _ p) hok⟩
 
+/-! ### One-Pass headers are paired with the trailing signatures by position -/
+
+/-- **the pairing is positional**: in a message with `n` One-Pass Signature packets (prefixed
+signatures may be interleaved) the One-Pass packet at head position `i`, `j` One-Pass packets
+(with a supported hash algorithm) before it, is judged against exactly the trailing Signature
+packet at wire position `n - 1 - j` - whatever the other trailing signatures are, and whether or
+not one of them would match the header -/
+theorem ops_pairing_is_positional (hk : Byte → Bool) (heads : List MsgHead) (trailing : List Sig)
+    (l : List (Option MsgSig)) (h : pairMessage hk heads trailing = some l)
+    (i : Nat) (o : Ops) (hi : heads[i]? = some (.onePass o)) (ho : hk o.hash = true) :
+    ∃ s, (trailing.take (nOnePass heads))[nOnePass heads - 1 - popsBefore hk heads i]? = some s ∧
+      l[i]? = some (some { ops := some o, sig := s }) :=
+  pairMessage_positional hk heads trailing l h i o hi ho
+
+/-- fewer trailing signatures than One-Pass headers: the reader fails ("missing signature packet") -/
+theorem missing_trailing_signature_is_error (P : Prims) (k : VKey) (heads : List MsgHead) (trailing : List Sig)
+    (chunks : List Bytes) (i : Nat) (h : trailing.length < nOnePass heads) :
+    verifyMessageWire P k heads trailing chunks i ≠ .ok := by
+  unfold verifyMessageWire
+  cases heads.findSome? (headConstructionError P.hashKnown) with
+  | some g => simp
+  | none => simp [pairMessage, h]
+
+/-- a header whose positional trailing signature disagrees with it never verifies at its index,
+even if another trailing signature of the same message agrees with it (exchanged trailing
+signatures are all invalid) -/
+theorem misplaced_trailer_never_verifies (P : Prims) (k : VKey) (heads : List MsgHead) (trailing : List Sig)
+    (chunks : List Bytes) (i : Nat) (o : Ops) (t : Sig)
+    (hi : heads[i]? = some (.onePass o)) (ho : P.hashKnown o.hash = true)
+    (ht : (trailing.take (nOnePass heads))[nOnePass heads - 1 - popsBefore P.hashKnown heads i]? = some t)
+    (hm : opsMatches o t = false) :
+    verifyMessageWire P k heads trailing chunks i ≠ .ok :=
+  misplaced_trailer_never_ok P k heads trailing chunks i o t hi ho ht hm
+
+/-- evaluated: two one-pass signatures (SHA-256 and SHA-512 headers) with their trailing signatures
+in nesting order pair header 0 with the LAST trailing signature; with the trailing signatures
+exchanged each header meets the other's signature and both slots are empty -/
+theorem exchanged_trailers_witness :
+    let s8 : Sig := Toy.sig0
+    let s10 : Sig := { Toy.sig0 with cfg := { Toy.cfg0 with hash := 10 } }
+    let o8 : Ops := { ver := 3, typ := 0, hash := 8, pk := 1 }
+    let o10 : Ops := { ver := 3, typ := 0, hash := 10, pk := 1 }
+    pairMessage (fun _ => true) [.onePass o8, .onePass o10] [s10, s8] =
+      some [some { ops := some o8, sig := s8 }, some { ops := some o10, sig := s10 }] ∧
+    pairMessage (fun _ => true) [.onePass o8, .onePass o10] [s8, s10] =
+      some [some { ops := some o8, sig := s10 }, some { ops := some o10, sig := s8 }] ∧
+    opsMatches o8 s10 = false ∧ opsMatches o10 s8 = false := by decide
+
 /-! ### certificates -/
 
 /-- **back-signature required**: a binding signature whose hashed key flags say "signing" passes
